@@ -29,10 +29,10 @@ TMAX = 4
 RULE = (
     "complete grid n_steps 1..8 (quick) / 1..12 (thorough) x burn_in 0..n-1 x thinning 1..4 (every combination has a "
     "non-empty result) enumerated for each of 3 models: scalar (3 scalar sites + observed), vector (normal.vmap "
-    "3-vector + multivariate_normal 2-vector), scan (nested @gen call + Scan of length 3); the kernel of a grid point "
-    "rotates with (n+b+t) over that model's kernels (quick: 3 kernels, one per point; thorough: 4 kernels, two per "
-    "point) drawn from mh, mala, hmc and three composites (two kernels in sequence, extra save(...) diagnostics, "
-    "namespaced sub-kernels); every (model, kernel, n) also runs the un-thinned reference (n,0,1); n_chains=2 on the "
+    "3-vector + multivariate_normal 2-vector), scan (nested @gen call + Scan of length 3); the kernel of a "
+    "(model, n) rotates with n over that model's kernels (quick: 3 kernels, one per n; thorough: 4 kernels, two per n) "
+    "drawn from mh, mala, hmc and three composites (two kernels in sequence, extra save(...) diagnostics, "
+    "namespaced sub-kernels); every case also runs the un-thinned reference (n,0,1); n_chains=2 on the "
     "full (b,t) grid of small n and n_chains=3/4 on seed-sampled grid points; key, observation and arguments drawn from "
     "VERIF_SEED per case; distinct_nontrivial = distinct (model,kernel,n,b,t,c) with b>0 or t>1 whose un-thinned run "
     "visits >= 2 different states (so a misaligned slice is visible)"
@@ -67,26 +67,44 @@ def grid(n):
     return [[b, t] for t in range(1, TMAX + 1) for b in range(n)]
 
 
-def kernels_of_point(tier, model, n, b, t):
+MODEL_ORDER = ["scalar", "vector", "scan"]
+CHUNK = 12  # grid points per case (whole thinning groups), so that shards stay level
+
+
+def kernels_of_n(tier, model, n):
+    """Kernels that run the complete (b, t) grid of this (model, n)."""
     ks = KERNELS_OF[tier][model]
-    return [ks[(n + b + t + r * (len(ks) // 2)) % len(ks)] for r in range(REPL[tier])]
+    mi = MODEL_ORDER.index(model)
+    return [ks[(n + mi + r * (len(ks) // 2)) % len(ks)] for r in range(REPL[tier])]
+
+
+def _chunks(n):
+    out, cur = [], []
+    for t in range(1, TMAX + 1):
+        grp = [[b, t] for b in range(n)]
+        if cur and len(cur) + len(grp) > CHUNK:
+            out.append(cur)
+            cur = []
+        cur = cur + grp
+    out.append(cur)
+    return out
 
 
 def plan(tier, seed):
     rng = np.random.default_rng([seed, 18])
     nmax = NMAX[tier]
     cases = []
-    for m, ks in KERNELS_OF[tier].items():
+    for m in MODEL_ORDER:
+        ks = KERNELS_OF[tier][m]
         for c, ns in ((1, range(1, nmax + 1)), (2, MULTI_FULL_N[tier])):
             for n in ns:
-                for k in ks:
-                    pts = [p for p in grid(n) if k in kernels_of_point(tier, m, n, p[0], p[1])]
-                    if not pts:
-                        continue
-                    # one grid point per single-chain case with even n is re-run under jax.jit
-                    jp = pts[int(rng.integers(0, len(pts)))] if (c == 1 and n % 2 == 0) else None
-                    cases.append({"model": m, "kernel": k, "n": n, "c": c, "points": pts, "jit_point": jp,
-                                  "cost": (1.0 if c == 1 else 2.5) * (len(pts) + 1 + (jp is not None))})
+                for k in kernels_of_n(tier, m, n):
+                    for ci, pts in enumerate(_chunks(n)):
+                        # one grid point per (model, kernel, even n) is re-run under jax.jit
+                        jp = pts[int(rng.integers(0, len(pts)))] if (c == 1 and n % 2 == 0 and ci == 0) else None
+                        calls = len(pts) + (0 if [0, 1] in pts else 1) + (jp is not None)
+                        cases.append({"model": m, "kernel": k, "n": n, "c": c, "points": pts, "jit_point": jp,
+                                      "cost": (1.0 if c == 1 else 2.5) * calls})
         for c in MULTI_SAMPLED_C[tier]:
             for k in rng.choice(ks, size=MULTI_SAMPLED_KERNELS[tier], replace=False):
                 n = int(rng.integers(4, nmax + 1))
